@@ -1,4 +1,5 @@
 import Acra.Lemmas.PES
+import Acra.Lemmas.ReviewC06
 import Acra.Spec.MPEG
 namespace Acra.Props.C06
 open Acra.Py Acra.Model.MPEGTS Acra.Model.PES Acra.Gen.PES Acra.Lemmas.MPEGTS Acra.Lemmas.PES
@@ -72,5 +73,61 @@ def stanagExample : STANAG :=
 
 example : STANAG_WF stanagExample ∧ Pkt_used (PES_pkt (STANAG_pes stanagExample)) = 188 ∧
     PES.ext stanagExample.pes = some (0x81, 0x80, [0x21, 0x04, 0x03, 0xFE, 0xD1]) := by decide +kernel
+
+/-! ### review additions: joint witnesses, explicit fields, the excluded input E3 -/
+
+/-- joint witness for `STANAG_pack_layout` and `STANAG_roundtrip_header` (all hypotheses) -/
+example : STANAG_WF stanagExample ∧ PES_WF (STANAG_pes stanagExample) ∧ stanagExample.pes.pkt.sync = 0x47 ∧
+    (stanagExample.pes.pkt.adaption_ctrl = 1 ∨ stanagExample.pes.pkt.adaption_ctrl = 3) ∧
+    PES.ext stanagExample.pes = some (0x81, 0x80, [0x21, 0x04, 0x03, 0xFE, 0xD1]) ∧ 0x81 / 16 = 8 ∧
+    Pkt_used (PES_pkt (STANAG_pes stanagExample)) = 188 := by decide +kernel
+
+/-- header-less STANAG packet, the largest 64-bit time, filled exactly through 141 bytes of adaptation stuffing -/
+def stanagPlain : STANAG :=
+  { STANAG.fresh with
+    pes := { PES.fresh with
+             pkt := { Pkt.fresh with adaption_ctrl := 3, adaption_field := some { AF.fresh with length := 141 } },
+             streamid := 0xFC },
+    stanag_counter := 15, time_us := 0xFFFFFFFFFFFFFFFF }
+
+/-- joint witness for `STANAG_roundtrip_partial` (all seven hypotheses) -/
+example : STANAG_WF stanagPlain ∧ PES_WF (STANAG_pes stanagPlain) ∧ stanagPlain.pes.pkt.sync = 0x47 ∧
+    (stanagPlain.pes.pkt.adaption_ctrl = 1 ∨ stanagPlain.pes.pkt.adaption_ctrl = 3) ∧ PES.ext stanagPlain.pes = none ∧
+    Pkt_used (PES_pkt (STANAG_pes stanagPlain)) = 188 ∧ ¬ looksLikeHeader (STANAG_pes stanagPlain) := by decide +kernel
+
+/-- `STANAG_roundtrip_header` states its result through `STANAG_decoded`; field by field: every encoded value comes
+    back, the PID is the forced 0x104, the optional PES header comes back, `pesdata` is the 36 metadata bytes -/
+theorem STANAG_roundtrip_header_fields (s : STANAG) (w1 w2 : Nat) (hd : Bytes) :
+    (STANAG_decoded s (some (w1, w2, hd))).time_us = s.time_us ∧
+    (STANAG_decoded s (some (w1, w2, hd))).stanag_counter = s.stanag_counter ∧
+    (STANAG_decoded s (some (w1, w2, hd))).unknown = s.unknown ∧ (STANAG_decoded s (some (w1, w2, hd))).unknown2 = s.unknown2 ∧
+    (STANAG_decoded s (some (w1, w2, hd))).pes.pkt.pid = 0x104 ∧
+    (STANAG_decoded s (some (w1, w2, hd))).pes.streamid = s.pes.streamid ∧
+    (STANAG_decoded s (some (w1, w2, hd))).pes.extension_w1 = some w1 ∧
+    (STANAG_decoded s (some (w1, w2, hd))).pes.extension_w2 = some w2 ∧
+    (STANAG_decoded s (some (w1, w2, hd))).pes.header_data = some hd ∧
+    (STANAG_decoded s (some (w1, w2, hd))).pes.pesdata =
+      Spec.MPEG.stanagData s.stanag_counter s.unknown s.unknown2 s.time_us :=
+  ⟨rfl, rfl, rfl, rfl, rfl, rfl, rfl, rfl, rfl, STANAG_data_layout _ _ _ _⟩
+
+/-- what `hfull` excludes (E3): a STANAG packet with payload-only control — 0xFF stuffing AFTER the metadata — is well
+    formed and packs to 188 bytes, but the decoder (checksum range `pesdata[5:-2]`) rejects the library's own encoding -/
+example :
+    let s : STANAG := { STANAG.fresh with pes := { PES.fresh with pkt := { Pkt.fresh with adaption_ctrl := 1 } } }
+    STANAG_WF s ∧ PES_WF (STANAG_pes s) ∧ Pkt_used (PES_pkt (STANAG_pes s)) < 188 ∧
+    ((STANAG.pack s).2.toOption.map List.length) = some 188 ∧
+    (match (STANAG.unpack STANAG.fresh (Pkt_bytes (PES_pkt (STANAG_pes s)))).2 with | .error .generic => true | _ => false) = true := by
+  decide +kernel
+
+/-- **STANAG re-encode**: under the hypotheses of `STANAG_roundtrip_partial` (`w = none`) or
+    `STANAG_roundtrip_header` (`w = some (w1, w2, hd)`), `STANAG4609.pack` of the decoded object succeeds and
+    reproduces the 188 bytes -/
+theorem STANAG_reencode (s : STANAG) (w : Option (Nat × Nat × Bytes)) (h : STANAG_WF s) (hw : PES_WF (STANAG_pes s))
+    (hew : PES.ext s.pes = w) (hfull : Pkt_used (PES_pkt (STANAG_pes s)) = 188) :
+    (STANAG.pack (STANAG_decoded s w)).2 = .ok (Pkt_bytes (PES_pkt (STANAG_pes s))) :=
+  Acra.Lemmas.ReviewC06.STANAG_reencode_gen s w h hw hew hfull
+
+example : PES.ext stanagExample.pes = some (0x81, 0x80, [0x21, 0x04, 0x03, 0xFE, 0xD1]) ∧ PES.ext stanagPlain.pes = none := by
+  decide
 
 end Acra.Props.C06
